@@ -134,6 +134,42 @@ CHECKS["C02"] = dict(
     technique="TLA+ liveness models of the parse loops and walks + fault-catalogue contract, TLC enumeration, watched-process replay, trace validation",
 )
 
+CHECKS["C16"] = dict(
+    text="WordDoc.tla is the reader contract for word-processor bodies: one action per block kind (paragraph, heading via builtin / "
+         "custom basedOn chain / outline level, list item, table with merges and multi-paragraph cells) emitting the item in source "
+         "order with its structure labels; inline children (runs, spans, links, insertions, content controls x text, symbol, tab, "
+         "break, space atoms); header/footer parts must not leak. DocxOrderImpl.tla models the pinned depth-blind second pass and "
+         "TLC refutes it (witness table, table, paragraph) while proving the depth-aware one. Four exhaustively enumerated case "
+         "families for DOCX and ODT are rendered by independent writers and read through docx.Open / odt.Open / tabula.Open "
+         "(Text, Markdown, Document); recorded documents incl. larger random ones are validated by WordDocTrace.tla.",
+    design_ref="4.16",
+    note=TB + " Writers harness/internal/wpw audited per case; nested tables, footnotes, text boxes, tracked deletions not generated.",
+    technique="TLA+ reader contract + implementation-shaped order model, TLC enumeration, rendered-package replay, trace validation",
+)
+
+CHECKS["C17"] = dict(
+    text="SheetRef.tla is the A1 codec as bijective base 26; TLC proves the round trips for A..ZZ and refutes the positional variant. "
+         "Sheet.tla builds workbooks cell by cell (10 cell kinds, merges, out-of-order rows/cells, 2 sheets, offsets up to ZZ200) "
+         "with PlacedByRef / MergeBlank / Locality as invariants and a refuted sequential-placement variant; every reachable "
+         "workbook is rendered by the independent writer and read through the codec functions, xlsx.Open, Text() (line r, field "
+         "c), ToMarkdown() and Document(); larger random workbooks are validated by SheetTrace.tla.",
+    design_ref="4.17",
+    note=TB + " Writer harness/internal/ooxmlw audited per run with python zipfile/xml.etree; number formats, dates, cells without r not generated.",
+    technique="TLA+ codec bijection + workbook state machine, TLC enumeration, rendered-package replay, trace validation",
+)
+
+CHECKS["C18"] = dict(
+    text="PartsOrder.tla reads a package part by part (action ReadNext) with path resolution and percent-decoding; invariants "
+         "DeclaredPrefix / DeclaredOrder / OwnPage hold for the declared-order reader and TLC refutes the file-name, archive-order and "
+         "query-decoding readers. PartsOrderMC builds every package from K parts x three independent permutations x 19 layout "
+         "profiles (XLSX, PPTX, EPUB 2/3, nested / renamed paths, %20 / + / %2B, decoys, optional parts); each is rendered and opened "
+         "through tabula.Open (PageCount, Text, ToMarkdown, Document) and the format readers; random packages of up to 10 parts are "
+         "validated by PartsOrderTrace.tla.",
+    design_ref="4.18",
+    note=TB + " Writer harness/internal/ooxmlw audited per run; declared-but-missing parts not generated.",
+    technique="TLA+ part-reading machine with refuted ordering variants, TLC enumeration, rendered-package replay, trace validation",
+)
+
 CHECKS["C20"] = dict(
     text="Admission.tla holds the decision tables: content detection independent of ZIP member order and unreferenced decoy parts, "
          "admission by own extension in any letter case, refusal under another supported extension, and the EPUB DRM table (rights "
